@@ -6,6 +6,8 @@ use std::io::{BufRead, Write};
 
 mod util;
 mod c18;
+mod psetl;
+mod c14;
 
 pub struct Out {
     pub result: String,
@@ -25,6 +27,7 @@ fn eval(case: &str) -> Out {
     let kind = case.split(' ').next().unwrap_or("");
     let r = std::panic::catch_unwind(|| match kind {
         "C18" => c18::eval(case),
+        "C14" => c14::eval(case),
         _ => Out::ok(format!("harnesserr unknown kind {}", kind)),
     });
     match r {
@@ -36,6 +39,7 @@ fn eval(case: &str) -> Out {
 fn gen(prop: &str, rng: &mut ChaCha20Rng, n: usize, thorough: bool) -> Vec<Case> {
     match prop {
         "C18" => c18::gen(rng, n, thorough),
+        "C14" => c14::gen(rng, n, thorough),
         _ => panic!("unknown property {}", prop),
     }
 }
@@ -48,7 +52,7 @@ fn emit(w: &mut dyn Write, case: &Case) {
 }
 
 fn main() {
-    std::panic::set_hook(Box::new(|_| {}));
+    if std::env::var("HARNESS_DEBUG").is_err() { std::panic::set_hook(Box::new(|_| {})); }
     let args: Vec<String> = std::env::args().collect();
     let stdout = std::io::stdout();
     let mut w = std::io::BufWriter::new(stdout.lock());
